@@ -59,7 +59,7 @@ fn generate(seed: u64, tier: Tier) -> Value {
            "ident": if r.chance(1, 2) { "a" } else { "b" }, "k": 8, "timeout_ms": timeout_ms,
            "nodes": (0..n).map(|i| json!({"tid_salt": r.below(1 << 40), "ip": [10, 1, r.below(250), 1 + i], "port": 9000 + i})).collect::<Vec<_>>(),
            "faults": {"silence": [], "slow": [], "drops": [], "dial": []}, "liars": [], "latency_ms": *r.pick(&[1u64, 5, 20]), "jitter_ms": *r.pick(&[0u64, 5, 40]),
-           "requests": reqs, "forgeries": forg, "flood": r.chance(1, 8)})
+           "requests": reqs, "forgeries": forg, "flood": r.chance(1, 8), "flood_then": *r.pick(&["nothing", "connection_lost", "connection_lost", "cancel_half"])})
 }
 
 fn shrink(sc: &Value) -> Vec<Value> {
@@ -281,7 +281,9 @@ fn execute(sc: &Value) -> RunReport {
         let mut flood_results: Option<(usize, usize, usize)> = None;
         if sc["flood"].as_bool().unwrap_or(false) && n >= 2 {
             let tr = nodes[0].transport.clone();
-            let peer = tids[1].clone();
+            let then = sc["flood_then"].as_str().unwrap_or("nothing");
+            // the connection-loss variant floods the stub connection, so that losing it disturbs no client request of this run
+            let peer = if then == "connection_lost" { net.link(nodes[0].idx, stub_idx); stub_tid.clone() } else { tids[1].clone() };
             let mut hs = Vec::new();
             for i in 0..300u64 {
                 let tr = tr.clone();
@@ -293,7 +295,58 @@ fn execute(sc: &Value) -> RunReport {
                 }));
             }
             tokio::time::sleep(Duration::from_millis(50)).await;
-            let pending_mid = nodes[0].transport.verif_active_requests_len().await;
+            let mut pending_mid = nodes[0].transport.verif_active_requests_len().await;
+            // with the table full: the connection to the peer holding the pending requests is lost (the requests
+            // are still pending until their timeouts), then 40 more requests go to another connected peer
+            if then == "connection_lost" {
+                nodes[0].transport.verif_connection_lost(&peer).await;
+                ctx.fault("connection_lost_with_full_table");
+                tokio::time::sleep(Duration::from_millis(5)).await;
+                let other = tids[1].clone();
+                let mut more = Vec::new();
+                for i in 0..40u64 {
+                    let tr = tr.clone();
+                    let other = other.clone();
+                    more.push(tokio::spawn(async move {
+                        let t0 = tokio::time::Instant::now();
+                        let r = tr.send_request(&other, "flood", format!("more-{i}").into_bytes(), Duration::from_millis(timeout_ms)).await;
+                        (r.is_ok(), t0.elapsed().as_millis() as u64)
+                    }));
+                }
+                tokio::time::sleep(Duration::from_millis(20)).await;
+                let pending_after = nodes[0].transport.verif_active_requests_len().await;
+                if pending_after > 256 {
+                    ctx.violate("C04.cap.pending_exceeds_256", "after_connection_loss", format!("{pending_after} /rr/ requests pending at once after the connection to the peer holding {pending_mid} of them was lost and 40 more were sent to another peer"));
+                }
+                pending_mid = pending_mid.max(pending_after);
+                hs.extend(more.into_iter().map(|h| tokio::spawn(async move { let (ok, ms) = h.await.unwrap_or((false, 0)); (ok, ms, if ok { String::new() } else { "more".to_string() }) })));
+            }
+            if then == "cancel_half" {
+                // half of the callers give up (their futures are dropped); the freed slots may be used again, never more
+                for h in hs.iter().take(150) { h.abort(); }
+                ctx.fault("flood_callers_cancelled");
+                tokio::time::sleep(Duration::from_millis(5)).await;
+                let after_cancel = nodes[0].transport.verif_active_requests_len().await;
+                if after_cancel > 150 {
+                    ctx.violate("C04.leak.rr_pending_entries_remain", "flood_cancel", format!("{after_cancel} entries pending 5 ms after 150 of 300 callers dropped their futures (at most 150 can still be waiting)"));
+                }
+                let mut more = Vec::new();
+                for i in 0..200u64 {
+                    let tr = tr.clone();
+                    let peer = peer.clone();
+                    more.push(tokio::spawn(async move {
+                        let r = tr.send_request(&peer, "flood", format!("again-{i}").into_bytes(), Duration::from_millis(timeout_ms)).await;
+                        (r.is_ok(), 1000u64, "again".to_string())
+                    }));
+                }
+                tokio::time::sleep(Duration::from_millis(20)).await;
+                let pending_after = nodes[0].transport.verif_active_requests_len().await;
+                if pending_after > 256 {
+                    ctx.violate("C04.cap.pending_exceeds_256", "after_cancellations", format!("{pending_after} /rr/ requests pending at once"));
+                }
+                pending_mid = pending_mid.max(pending_after);
+                hs.extend(more);
+            }
             *max_rr_pending.lock().unwrap() = pending_mid;
             let mut immediate_refusals = 0;
             let mut timeouts = 0;
